@@ -144,6 +144,10 @@ func (l *FakeListener) Accept() (net.Conn, error) {
 
 func (l *FakeListener) Close() error {
 	l.mu.Lock()
+	if l.closed {
+		l.mu.Unlock()
+		return &net.OpError{Op: "close", Net: "fake", Err: net.ErrClosed} // like a real listener closed twice
+	}
 	l.closed = true
 	l.cond.Broadcast()
 	l.mu.Unlock()
